@@ -688,7 +688,7 @@ def run(n, seed, n_inputs=2, verbose=False, keep=False, jobs=16, timeout=3.0, ou
     if os.path.isdir(outdir):
         for f in os.listdir(outdir):
             os.unlink(os.path.join(outdir, f))
-    results = discharge([o for _, _, o in all_obs], outdir, timeout=timeout, jobs=jobs, rounds=[timeout], portfolio=("z3-5.1", "z3-4.8", "cvc5"), confirm_unsat=False)
+    results = discharge([o for _, _, o in all_obs], outdir, timeout=timeout, jobs=jobs, rounds=[timeout], portfolio=("z3-5.1", "z3-4.8", "cvc5"), confirm_unsat=os.environ.get("FUZZ_CONFIRM", "0") == "1")
     per = {}
     for (idx, which, o), r in zip(all_obs, results):
         per.setdefault(idx, {"T": [], "F": []})[which].append(r)
